@@ -96,6 +96,9 @@ pub struct Cfg {
     pub handles: Vec<HandleCfg>,
     pub faulty: bool,
     pub max_ops: usize,
+    /// swarm: per-run factors for the ten operation-class weights
+    #[serde(default)]
+    pub swarm: Vec<u32>,
 }
 
 const NAMES: &[&str] = &["a", "Sub", "S2", "x y", "名", ".hid", "d.e", "m", "@E", "e_f", "tr ", " ld"];
@@ -121,7 +124,8 @@ fn gen_cfg(prop: &str, _tier: Tier, run_seed: u64) -> Value {
         };
         handles.push(HandleCfg { stack: pool, game, lang });
     }
-    let cfg = Cfg { layers, handles, faulty: r.chance(1, 2), max_ops: r.range(10, 80) };
+    let swarm: Vec<u32> = (0..10).map(|_| *r.pick(&[0u32, 1, 1, 1, 2, 3])).collect();
+    let cfg = Cfg { layers, handles, faulty: r.chance(1, 2), max_ops: r.range(10, 80), swarm };
     serde_json::to_value(cfg).unwrap()
 }
 
@@ -433,6 +437,21 @@ fn gen_op(r: &mut Rng, m: &FsModel, cfg: &Cfg, prop: &str, step: usize) -> Op {
         "C14" => [10, 20, 16, 10, 5, 5, 12, 5, 5, 6],
         _ => [12, 26, 22, 8, 4, 4, 4, 2, 16, 0],
     };
+    let mut w = w;
+    for (i, f) in cfg.swarm.iter().enumerate().take(10) {
+        w[i] *= f;
+    }
+    // the environment, writes and the property's own operations never vanish
+    w[0] = w[0].max(6);
+    w[1] = w[1].max(8);
+    match prop {
+        "C13" => {
+            w[6] = w[6].max(12);
+            w[7] = w[7].max(4);
+        }
+        "C14" => w[9] = w[9].max(2),
+        _ => w[2] = w[2].max(8),
+    }
     let pick_path = |r: &mut Rng, file: Option<bool>| -> String {
         if r.chance(3, 5) {
             if let Some(p) = existing_path(r, m, file) {
